@@ -102,8 +102,13 @@ def wrong_for(t):
     w = list(WRONG[t[0]])
     if t[0] == 'list' and t[1][0] in ('int', 'bigint', 'float', 'byte', 'bool'):
         w.append('["w"]')
+        # a literal with right- and wrong-typed elements, in both orders
+        w.append('[%s, "w"]' % {'int': '1', 'bigint': 'B1', 'float': '1.5', 'byte': '0b1', 'bool': 'true'}[t[1][0]])
+        w.append('["w", %s]' % {'int': '1', 'bigint': 'B1', 'float': '1.5', 'byte': '0b1', 'bool': 'true'}[t[1][0]])
     if t[0] == 'list' and t[1][0] == 'str':
         w.append('[1]')
+        w.append('["a", 1]')
+        w.append('[1, "a"]')
     return w
 
 
@@ -381,6 +386,7 @@ class TG:
         p.add(0, "zint = 7")
         p.add(0, "zopt_i: int? = 5")
         p.add(0, "zopt_s: str? = \"o\"")
+        p.add(0, "zopt_b: bool? = true")
         # classes
         for ci in range(r.choice([1, 2])):
             cn = self.fresh("K")
